@@ -15,7 +15,10 @@ const stubRule = "one case = one stub configuration history (default first, then
 
 const ifaceRule = "one case = one generated history of interface-variable mocks (Apply and As().Return per method, any subset and order, 1-3 variables biased to same-type pairs, 1-2 builders), calls of single and of all methods through the variable, builder dropped, Reset, with seeded GC events (clobberfree + churn) at every yield including iface.stub.made / iface.applied between two method mocks; non-trivial = at least two method mocks or a GC event; distinct = hash of (operations, fired events)"
 
+const concRule = "one case = one plan of 2-4 mocker tasks (own builder, disjoint targets: apply / stub / when / cancel / reset / call) and 1-3 caller tasks calling 1-3 steadily mocked functions (callback, origin-calling callback, stub) chosen from an address-adjacent window of the zoo so that targets share code pages, executed under the seeded scheduler with preemption at every hook site and GC / stack-growth events; non-trivial = at least one context switch; distinct = hash of (operations, context-switch sequence, fired events)"
+
 func init() {
+	props["C11"] = propCfg{World: "conc", Level: "exploration", Quick: 3000, Thorough: 250000, RaceQ: 500, RaceT: 40000, Chunk: 50, Rule: concRule, Assume: commonAssume}
 	props["C07"] = propCfg{World: "iface", Level: "exploration", Quick: 4000, Thorough: 300000, Chunk: 100, Rule: ifaceRule, Assume: commonAssume}
 	props["C04"] = propCfg{World: "stub", Level: "exploration", Quick: 8000, Thorough: 600000, Chunk: 200, Rule: stubRule, Assume: commonAssume}
 	props["C05"] = propCfg{World: "stub", Level: "exploration", Quick: 6000, Thorough: 400000, RaceQ: 600, RaceT: 30000, Chunk: 200, Rule: stubRule, Assume: commonAssume}
